@@ -57,7 +57,7 @@ def run(ck):
         terms.append(f"(let xs := {xs} in concat (map (fun l => (-1) :: map Z.of_nat l) (extract_index {d} xs)) ++ [-2] ++ flat {d} xs ++ "
                      f"[-3; match rebuild (rev (extract_index {d} xs)) (map (@Leaf Z) (map (fun t => 10 * t) (flat {d} xs))) with "
                      f"Some ys => if list_eq_dec nestZ_eq_dec ys (map (nest_map (fun t => 10 * t)) xs) then 1 else 0 | None => 0 end])")
-    v.write_text("From Coq Require Import ZArith List. Import ListNotations.\nFrom PV.Props Require Import C07Proofs.\nLocal Open Scope Z_scope.\n"
+    v.write_text("From Coq Require Import ZArith List. Import ListNotations.\nFrom PV.Model Require Import Nest.\nLocal Open Scope Z_scope.\n"
                  "Fixpoint nestZ_eqb (a b : nest Z) {struct a} : bool := match a, b with Leaf x, Leaf y => Z.eqb x y | Node l, Node m => "
                  "(fix go (l m : list (nest Z)) : bool := match l, m with [], [] => true | x :: l', y :: m' => andb (nestZ_eqb x y) (go l' m') | _, _ => false end) l m | _, _ => false end.\n"
                  "Definition nestZ_eq_dec (a b : nest Z) : {nestZ_eqb a b = true} + {nestZ_eqb a b <> true} := Bool.bool_dec _ _.\n"
